@@ -188,7 +188,17 @@ Canon(T, val) ==
     IN  C(1)
 
 \* marshal.sizeCheckUnmarshalizer.Unmarshal (integer arithmetic as in the code)
-SizeOK(len, objSize, delta) == delta = NoCheck \/ len <= objSize + (objSize * delta) \div 100
+Lenient == -2         \* Delta value math.MaxUint32 (update/factory: full-sync / hardfork interceptors): accepts any length
+SizeOK(len, objSize, delta) == delta \in {NoCheck, Lenient} \/ len <= objSize + (objSize * delta) \div 100
+
+(* The rule is PER HANDLE.  NewSizeCheckUnmarshalizer(m, d) returns a new handle that first asks m (which may itself be  *)
+(* a size-checking handle) and then applies its own rule; it never changes m or any other handle around the same base. *)
+(* A wrapping history is a sequence of operations [on |-> k, d |-> delta]: handle i = wrap(handle on, d), handle 0 =     *)
+(* the bare marshalizer.  The rule of handle k is the conjunction along ITS OWN chain -- a function of the deltas of     *)
+(* the wrappers it is made of, whatever else was wrapped around it or around the same base later.                       *)
+RECURSIVE Chain(_, _)
+Chain(ops, k) == IF k = 0 THEN <<>> ELSE <<ops[k].d>> \o Chain(ops, ops[k].on)
+HandleSizeOK(ops, k, len, objSize) == \A i \in 1..Len(Chain(ops, k)) : SizeOK(len, objSize, Chain(ops, k)[i])
 
 Accepted(T, e, delta) ==
     LET d == Decode(T, e) IN d.ok /\ SizeOK(EncSize(e), CanonSize(T, d.val), delta)
